@@ -169,6 +169,7 @@ type Interp struct {
 	Partials map[string][]Node
 	sc       *scope
 	unspec   string
+	concatGo bool   // string + float spells the float as Go's %v does, not as FloatText says
 	lenient  string // set when an unknown identifier raised INSIDE an operand (not the operand itself) was forgiven
 	steps    int
 }
@@ -211,7 +212,14 @@ func Run(prog []Node, data map[string]interface{}, helpers map[string]Helper) Re
 
 // RunWith is Run with a table of partials (name -> template).
 func RunWith(prog []Node, data map[string]interface{}, helpers map[string]Helper, partials map[string][]Node) Result {
-	in := &Interp{Helpers: helpers, Partials: partials, sc: &scope{vars: map[string]interface{}{}}}
+	return RunOpt(prog, data, helpers, partials, false)
+}
+
+// RunOpt is RunWith with one choice left open by the statements made explicit. concatGo: `string + float` spells the
+// float as Go's %v does; otherwise as FloatText says (what an output tag prints). "The printed form of x" can be read
+// either way; a check that cares accepts both.
+func RunOpt(prog []Node, data map[string]interface{}, helpers map[string]Helper, partials map[string][]Node, concatGo bool) Result {
+	in := &Interp{Helpers: helpers, Partials: partials, sc: &scope{vars: map[string]interface{}{}}, concatGo: concatGo}
 	for k, v := range data {
 		in.sc.vars[k] = v
 	}
@@ -933,7 +941,7 @@ func (in *Interp) apply(op string, l, r interface{}) (interface{}, error) {
 		if op == "+" {
 			switch r.(type) {
 			case string, int, float64, bool:
-				if f, ok := r.(float64); ok {
+				if f, ok := r.(float64); ok && !in.concatGo {
 					return lt + FloatText(f), nil
 				}
 				return lt + fmt.Sprint(r), nil
